@@ -57,6 +57,48 @@ BUILT = {
         "Trusted: the structural snapshot (mc/snapshot.py) as state identity; held generators are closed by the harness.",
         "DESIGN.md §4 C08",
     ),
+    "C09": (
+        "bounded exhaustive enumeration of generated CIDs x meaning-preserving rewrites (singly and in pairs) x a catalogue of single structural defects at every applicable row",
+        "40 (thorough 400) generated valid CIDs over 4 formats, 1-7 fields of all 8 types, 0-3 checks, with and without comment rows; every rewrite (comment rows at every position, trailing cells, case of markers / property / format names, blanks, underscores, permuted and late property rows) must load to the same definition snapshot; each of ~60 structural defects is injected at every applicable row and must raise an InterfaceError whose first location names that row.",
+        "Trusted: mc/models/cidgrammar.py (CIDs are rendered from structures; the oracle never parses). Completeness defects are judged by exception type only.",
+        "DESIGN.md §4 C09",
+    ),
+    "C10": (
+        "deviation-bounded exhaustive fault injection (one hostile cell at a time, pairs in the thorough tier; container truncation / bit flips at every offset) through every public entry point",
+        "Every cell of every row of 4 valid base CIDs (all field types, both checks) and of their data is replaced by each of 61 hostile values; containers (csv, fixed, ods, xlsx data; csv, ods, xlsx CIDs) are truncated and bit-flipped at every (quick: every 16th for archives) offset; each case runs Cid.read, rows x 3 modes, validate, Writer and applications.main; only InterfaceError / DataError may escape and main must not return 4.",
+        "Oracle is the exception type only. One recorded known finding (absurdly large field lengths, known_findings.json).",
+        "DESIGN.md §4 C10",
+    ),
+    "C11": (
+        "full enumeration of property x format x spelling / value tables transcribed from the documentation, plus all pairs for the consistency rules",
+        "Applicability of all 12 properties x 4 formats in 6 name spellings; every documented spelling (literal, decimal, hex, quoted, escapes, symbolic names in 3 cases) of 100 code points as item delimiter plus 24 malformed spellings; every printable ASCII character as quote / escape / decimal / thousands character; line delimiter names, 21 encodings, Header / Sheet values, all (item delimiter, quote character) pairs in both orders, decimal x thousands, and the defaults; each through Cid.read with effective values compared.",
+        "Trusted: the tables in mc/props/c11.py transcribed from the statement and docs/writing-an-icd.rst; documented grey zones accept either outcome.",
+        "DESIGN.md §4 C11",
+    ),
+    "C12": (
+        "full product enumeration of delimited configurations x bounded table sets over an alphabet of the configured special characters; write + read round trip on the real code",
+        "All 16 x 20 x 2 x 2 x 4 combinations of item delimiter, quote, escape, quoting and line delimiter are declared through Cid.read; for each accepted one every table of the bounded set (all 1x1, 1x2, 2x1, sparse 2x2 / 1x3 / 3x1; thorough: all 2x2 and more) over 15 cells containing delimiter, quote, escape, blanks and line breaks is written and read back through rowio and, for one-row tables, through cutplace.Writer / cutplace.rows.",
+        "The csv engine is executed, not modelled; rows of zero cells and skip-initial-space are outside the statement.",
+        "DESIGN.md §4 C12",
+    ),
+    "C13": (
+        "bounded exhaustive enumeration of input strings plus explicit-state fixpoint search over the product of the real fixed_rows generator frame state and specification automata",
+        "(1) all strings over {a,b,CR,LF} up to length 7 (thorough 9) x width lists x 5 delimiter settings; (2) BFS over input prefixes where the state is a structural snapshot of the suspended fixed_rows generator frame (blocked on a harness stream) x greedy and canonical specification states, explored to the fixpoint, i.e. all inputs of every length; oracle: returned rows have the declared widths and reproduce the input with some permitted delimiters, and canonically well-formed inputs are never rejected.",
+        "Trusted: mc/models/fixedspec.py. Frame locals that only feed messages are ignored in the snapshot (listed in the evidence).",
+        "DESIGN.md §4 C13",
+    ),
+    "C14": (
+        "explicit-state BFS over write sequences on the real Writer with product-state merging; per-transition stream deltas compared with the rendering rules; final read-back",
+        "For delimited and fixed CIDs x header 0-1 x 4 line delimiters x 3 field/check sets every row shape (accepted, duplicate key, bad cell per column, too long, short, long, empty) is written in every distinct product state; accepted rows must extend the stream by exactly their rendering with the declared line end, rejected rows must raise a cutplace error and emit nothing, close must agree with the DistinctCount model and the output must read back under a fresh CID.",
+        "Trusted: rowmodel.Run for verdicts; Python's csv module configured independently to parse delimited deltas back.",
+        "DESIGN.md §4 C14",
+    ),
+    "C20": (
+        "explicit-state BFS plus bounded enumeration over tables and run sequences with recording subclasses; recorded call log compared with a protocol model",
+        "Recording field format and check classes are resolved through CID rows; for ~100 configurations (1-3 fields with empty flag / length / allowed characters, 0-3 checks that accept, veto or fail at the end, header 0-2, delimited and fixed) and 19 run variants (reader x 3 modes x limits, explicit close inside with, validate, abandoned reader, writer with double close) plus all pairs of runs on one CID, the recorded call sequence must equal the model's; plugin-folder scenarios run in subprocesses.",
+        "Trusted: mc/models/protocol.py. Resets and cleanups are compared as unordered blocks; after a failing end verdict later ones may or may not be asked.",
+        "DESIGN.md §4 C20",
+    ),
 }
 
 NOT_YET = "check not built yet in this session; the design (DESIGN.md §4) decides it by bounded exhaustive exploration"
